@@ -63,7 +63,7 @@ func Pack(t *lex.Tables) (*Scanner, error) {
 	if len(t.StateMap) != 1 || t.StateMap[0] != 0 {
 		return nil, errors.New("multiple start states are not supported")
 	}
-	if t.SymbolMap[len(t.SymbolMap)-1].Start > 0xff {
+	if t.SymbolMap[len(t.SymbolMap)-1].Start > 0x80 {
 		return nil, errors.New("only ASCII automatons are supported")
 	}
 
